@@ -200,13 +200,6 @@ Definition taint_next (h : state) (t : nat) (o : op) (h' : state) : nat :=
   match o with
   | ORevert _ => Nat.min t (length (vjournal h'))
   | OFinalise | ORoot | OCommitReload | OCopy => 0%nat
-  | OUpdateIn a _ =>
-    (* finding inplace-update-then-revert: the journal entries that point at the object mutated in place
-       no longer undo what they did; revisions older than the newest of them are lost *)
-    match aget (vmap h) a with
-    | Some v => Nat.max t (alias_depth a v (vjournal h))
-    | None => t
-    end
   | _ => t
   end.
 
@@ -785,6 +778,13 @@ Proof.
     exact (update_tail _ _ _ _ _ _ _ _ W1 R1 HJ Hv Hd Hu).
   - destruct Hr as [Hx ->]. rewrite Hx. intros H; inversion H; subst. rewrite a_push_nil. auto.
 Qed.
+
+(* UpdateValidator(stored record written in place, copy): since the undo of an update reads the stored
+   record and no pointer of the journal (7813a3d), only the values matter *)
+Lemma sim_update_in h t x a u h' :
+  wf h t -> R h t x -> J x -> step h (OUpdateIn a u) = Some h' ->
+  wf h' t /\ R h' t (a_step x (OUpdateIn a u)).
+Proof. exact (sim_update h t x a u h'). Qed.
 
 (* ---- CreateValidator ---------------------------------------------------------- *)
 
@@ -1913,21 +1913,28 @@ Proof.
     destruct Hek as (Hnwf & Howf & Hndf & Hcoh).
     set (s1 := set_validator h0 old) in *.
     assert (Hoa : v_addr old = a) by apply Howf.
+    (* the record taken out of the statistics is the stored one *)
+    assert (Hcur : exists cv, aget (vmap h) a = Some cv /\ v_deleted cv = false).
+    { assert (Hf : jfirst (vjournal h) a = Some (VUpdate a nw old))
+        by (rewrite Ej; cbn [jfirst ventry_addr]; now rewrite Z.eqb_refl).
+      destruct (w_jlive _ _ W _ _ Hf) as (cv & Hv & Hvd). exists cv. split; [exact Hv|exact Hvd]. }
+    destruct Hcur as (cv & Hcv & Hcvd).
+    change (aget (vmap h0) a) with (aget (vmap h) a) in Hu. rewrite Hcv in Hu.
     assert (Hfields : arrs h1 = arrs h /\ vmap h1 = aset (vmap h) a old /\ vindex h1 = sins a (vindex h) /\
               vjournal h1 = r /\ vdirty h1 = vdirty h /\ t_vals h1 = t_vals h /\ accts h1 = accts h /\
               ajournal h1 = ajournal h /\ blobs h1 = blobs h /\ revs h1 = revs h /\ next_id h1 = next_id h /\
               adirty h1 = adirty h /\
-              a_adjust (stat_ h) (norm old) (norm nw) = stat_ h1).
+              a_adjust (stat_ h) (norm old) (norm cv) = stat_ h1).
     { unfold with_stat in Hu. rewrite stake_equal_sym in Hu.
-      assert (Hadj : (if stake_equal old nw then Some (stat_ h)
-                      else match decr_stat (stat_ h) nw with None => None | Some st1 => incr_stat st1 old end) = Some (stat_ h1)).
-      { destruct (stake_equal old nw); [inversion Hu; reflexivity|].
-        change (stat_ s1) with (stat_ h) in Hu. destruct (decr_stat (stat_ h) nw) as [st1|]; [|discriminate].
+      assert (Hadj : (if stake_equal old cv then Some (stat_ h)
+                      else match decr_stat (stat_ h) cv with None => None | Some st1 => incr_stat st1 old end) = Some (stat_ h1)).
+      { destruct (stake_equal old cv); [inversion Hu; reflexivity|].
+        change (stat_ s1) with (stat_ h) in Hu. destruct (decr_stat (stat_ h) cv) as [st1|]; [|discriminate].
         destruct (incr_stat st1 old); [|discriminate]. inversion Hu; reflexivity. }
       apply adjust_sim in Hadj.
-      destruct (stake_equal old nw).
+      destruct (stake_equal old cv).
       - inversion Hu; subst h1. unfold s1, set_validator, index_add; cbn. rewrite Hoa. repeat split. exact Hadj.
-      - change (stat_ s1) with (stat_ h) in Hu. destruct (decr_stat (stat_ h) nw) as [st1|]; [|discriminate].
+      - change (stat_ s1) with (stat_ h) in Hu. destruct (decr_stat (stat_ h) cv) as [st1|]; [|discriminate].
         destruct (incr_stat st1 old); [|discriminate]. inversion Hu; subst h1.
         unfold s1, set_validator, index_add; cbn. rewrite Hoa. repeat split. exact Hadj. }
     destruct Hfields as (Earr & Evm & Eidx & Evj & Edirty & Etv & Eacc & Eaj & Ebl & Erev & Enx & Ead & Estat).
@@ -1936,7 +1943,8 @@ Proof.
                J1' J2b Hrest Howf Hndf Hcoh Hjtl (Hhead old (or_intror (or_introl eq_refl)))); assumption. }
     destruct Hrestore as [W1 R1].
     split; [exact W1|]. split; [|split; [|repeat split; assumption]].
-    + cbn [abs_entry c_vundo1]. cbn [fst absv]. change (xstat (c_set_validator c a (absv h old))) with (xstat c).
+    + cbn [abs_entry c_vundo1]. rewrite Rxs, (xpeek_live _ _ _ Hcv Hcvd).
+      cbn [fst absv]. change (xstat (c_set_validator c a (absv h old))) with (xstat c).
       rewrite Rst, Estat. exact R1.
     + cbn [abs_entry c_vundo1]. unfold c_set_validator, c_index, c_xs, c_stat. cbn. apply ssorted_sset, Hs.
   - (* VDelete *)
@@ -2450,235 +2458,6 @@ Qed.
 Lemma R_full_taint h t x : R h t x -> R h (length (vjournal h)) x.
 Proof.
   intros Rx. constructor; try apply Rx. rewrite Nat.sub_diag. unfold cj. rewrite Nat.sub_diag. reflexivity.
-Qed.
-
-(* ---- in-place update of the stored object --------------------------------------------------- *)
-
-Lemma firstn_split {A} (l : list A) : forall n' n, (n' <= n)%nat ->
-  firstn n l = firstn n' l ++ firstn (n - n') (skipn n' l).
-Proof.
-  induction l as [|y r IH]; intros n' n Hn.
-  - now rewrite !firstn_nil, skipn_nil, firstn_nil.
-  - destruct n' as [|n']; [cbn [firstn skipn app]; now rewrite Nat.sub_0_r|].
-    destruct n as [|n]; [lia|]. cbn [firstn skipn app Nat.sub]. f_equal. apply IH. lia.
-Qed.
-
-Lemma skipn_split {A} (l : list A) : forall n' n, (n' <= n)%nat ->
-  skipn n' l = firstn (n - n') (skipn n' l) ++ skipn n l.
-Proof.
-  induction l as [|y r IH]; intros n' n Hn.
-  - now rewrite !skipn_nil, firstn_nil.
-  - destruct n' as [|n'].
-    + cbn [skipn]. rewrite Nat.sub_0_r. symmetry. apply firstn_skipn.
-    + destruct n as [|n]; [lia|]. cbn [skipn Nat.sub]. apply IH. lia.
-Qed.
-
-Lemma firstn_map' {A B} (f : A -> B) l : forall n, firstn n (map f l) = map f (firstn n l).
-Proof. induction l as [|y r IH]; intros [|n]; cbn; [reflexivity..|]. now rewrite IH. Qed.
-Lemma skipn_map' {A B} (f : A -> B) l : forall n, skipn n (map f l) = map f (skipn n l).
-Proof. induction l as [|y r IH]; intros [|n]; cbn; [reflexivity..|]. apply IH. Qed.
-
-Lemma jwf_app h j1 : forall j2 older, jwf h (j1 ++ j2) older -> jwf h j1 (j2 ++ older) /\ jwf h j2 older.
-Proof.
-  induction j1 as [|e r IH]; intros j2 older; cbn [app jwf].
-  - intros H. split; [exact I|exact H].
-  - intros [H1 H2]. destruct (IH _ _ H2) as [H3 H4]. split; [|exact H4]. split; [|exact H3].
-    now rewrite <- app_assoc in H1.
-Qed.
-
-(* raising the taint forgets journal entries *)
-Lemma wf_taint_up h t t' : wf h t -> (t <= t')%nat -> (t' <= length (vjournal h))%nat -> wf h t'.
-Proof.
-  intros [W WA] Hle Hlen. split; [|exact WA].
-  set (n := (length (vjournal h) - t)%nat). set (n' := (length (vjournal h) - t')%nat).
-  assert (Hn : (n' <= n)%nat) by (unfold n, n'; lia).
-  assert (Hc : cj h t = cj h t' ++ firstn (n - n') (skipn n' (vjournal h))) by (unfold cj; apply firstn_split; exact Hn).
-  assert (Ht : tj h t' = firstn (n - n') (skipn n' (vjournal h)) ++ tj h t) by (unfold tj; apply skipn_split; exact Hn).
-  assert (Hr : forall v, reachable h t' v -> reachable h t v).
-  { intros v [H|H]; [left; exact H|]. right. rewrite Hc, flat_map_app. apply in_or_app. left; exact H. }
-  constructor; try apply W.
-  - exact Hlen.
-  - intros v Hv. apply (w_range _ _ W), Hr, Hv.
-  - intros v w Hv Hw. apply (w_sep _ _ W); auto.
-  - rewrite Ht. pose proof (w_jwf _ _ W) as Hj. rewrite Hc in Hj. apply (jwf_app _ _ _ _ Hj).
-Qed.
-
-Lemma R_taint_up h t t' x : R h t x -> (t <= t')%nat -> R h t' x.
-Proof.
-  intros Rx Hle. constructor; try apply Rx.
-  pose proof (r_vj _ _ _ Rx) as H. unfold cj in *.
-  apply (f_equal (firstn (length (vjournal h) - t'))) in H.
-  rewrite firstn_firstn, firstn_map', firstn_firstn in H.
-  replace (Nat.min (length (vjournal h) - t') (length (vjournal h) - t)) with (length (vjournal h) - t')%nat in H by lia.
-  exact H.
-Qed.
-
-(* what the well-formedness of newer entries needs to know about older ones *)
-Definition prof (l : list ventry) : list (Z * bool) := map (fun e => (ventry_addr e, is_del e)) l.
-
-Lemma prof_addrs l l' : prof l = prof l' -> map ventry_addr l = map ventry_addr l'.
-Proof. intros H. apply (f_equal (map fst)) in H. unfold prof in H. rewrite !map_map in H. exact H. Qed.
-
-Lemma jfirst_prof l : forall l' a, prof l = prof l' ->
-  option_map is_del (jfirst l a) = option_map is_del (jfirst l' a).
-Proof.
-  induction l as [|e r IH]; intros [|e' r'] a H; try discriminate; [reflexivity|].
-  cbn in H. inversion H as [[Ha Hd Hr]]. cbn [jfirst]. rewrite Ha.
-  destruct (Z.eqb (ventry_addr e') a); [cbn; now rewrite Hd|apply IH, Hr].
-Qed.
-
-Lemma jfirst_prof_del l l' a (P : bool -> Prop) : prof l = prof l' ->
-  match jfirst l a with Some e => P (is_del e) | None => True end ->
-  match jfirst l' a with Some e => P (is_del e) | None => True end.
-Proof.
-  intros H. pose proof (jfirst_prof _ _ a H) as Hf.
-  destruct (jfirst l a), (jfirst l' a); cbn in Hf; try discriminate; auto. inversion Hf as [E]. now rewrite E.
-Qed.
-
-Lemma jfirst_prof_none l l' a : prof l = prof l' -> jfirst l a = None -> jfirst l' a = None.
-Proof.
-  intros H E. pose proof (jfirst_prof _ _ a H) as Hf. rewrite E in Hf.
-  destruct (jfirst l' a); [discriminate|reflexivity].
-Qed.
-
-Lemma entry_ok_prof h e older older' : prof older = prof older' -> entry_ok h e older -> entry_ok h e older'.
-Proof.
-  intros Hp. pose proof (prof_addrs _ _ Hp) as Ha.
-  destruct e as [a prev indexed|a nw old|a old]; cbn [entry_ok]; unfold not_del_first.
-  - intros [H1 H2]. split; [exact H1|]. destruct prev as [p|].
-    + destruct H2 as (A & B & C & D). refine (conj A (conj B (conj _ _))).
-      * exact (jfirst_prof_del _ _ a (fun b => b = true) Hp C).
-      * rewrite <- Ha. exact D.
-    + destruct H2 as (A & B & C). refine (conj _ (conj B C)). exact (jfirst_prof_none _ _ a Hp A).
-  - intros (A & B & C & D). refine (conj A (conj B (conj _ _))).
-    + exact (jfirst_prof_del _ _ a (fun b => b = false) Hp C).
-    + rewrite <- Ha. exact D.
-  - intros (A & C & D). refine (conj A (conj _ _)).
-    + exact (jfirst_prof_del _ _ a (fun b => b = false) Hp C).
-    + rewrite <- Ha. exact D.
-Qed.
-
-Lemma jwf_prof h j : forall older older', prof older = prof older' -> jwf h j older -> jwf h j older'.
-Proof.
-  induction j as [|e r IH]; intros older older' Hp; cbn [jwf]; [auto|].
-  intros [H1 H2]. split; [|eapply IH; eauto].
-  eapply entry_ok_prof; [|exact H1]. unfold prof in *. rewrite !map_app. now rewrite Hp.
-Qed.
-
-(* the tainted part of the journal may be replaced by anything with the same addresses and kinds *)
-Lemma journal_swap h t x j' :
-  wf h t -> R h t x ->
-  length j' = length (vjournal h) -> prof j' = prof (vjournal h) ->
-  firstn (length (vjournal h) - t) j' = cj h t ->
-  wf (w_vjournal h j') t /\ R (w_vjournal h j') t x.
-Proof.
-  intros [W WA] Rx Hlen Hp Hfst. set (h2 := w_vjournal h j').
-  assert (Ea : arrs h2 = arrs h) by reflexivity.
-  assert (Hle : heap_le h h2) by (apply heap_le_eq, Ea).
-  assert (Hcj : cj h2 t = cj h t) by (unfold cj; cbn [h2 vjournal w_vjournal]; now rewrite Hlen).
-  assert (Haddr : map ventry_addr j' = map ventry_addr (vjournal h)) by now apply prof_addrs.
-  assert (Hr : forall v, reachable h2 t v <-> reachable h t v) by (intros v; unfold reachable; now rewrite Hcj).
-  split; [split|].
-  - constructor.
-    + cbn [h2 vjournal w_vjournal]. rewrite Hlen. apply W.
-    + intros a v Hv. destruct (w_vmap _ _ W _ _ Hv) as (H1 & H2 & H3). split; [exact H1|].
-      split; [intros Hd; eapply val_wf_eq; eauto|intros Hd; unfold tomb_wf; eapply val_wf_eq; [eauto|exact (H3 Hd)]].
-    + intros v Hv. apply (w_range _ _ W), Hr, Hv.
-    + intros v w Hv Hw. apply (w_sep _ _ W); now apply Hr.
-    + apply (w_tvals _ _ W).
-    + intros a v Hv Hd N1 N2. apply (w_tomb _ _ W a v Hv Hd N1). rewrite <- Haddr. exact N2.
-    + intros a v Hv Hd N1 N2. eapply coherent_le; eauto. apply (w_range _ _ W). left; eauto.
-      apply (w_coh _ _ W a v Hv Hd N1). rewrite <- Haddr. exact N2.
-    + intros a e' Hf. cbn [h2 vjournal w_vjournal] in Hf.
-      pose proof (jfirst_prof _ _ a Hp) as Hq. rewrite Hf in Hq. cbn in Hq.
-      destruct (jfirst (vjournal h) a) as [e|] eqn:Ee; [|discriminate]. cbn in Hq. inversion Hq as [Hd].
-      destruct (w_jlive _ _ W a e Ee) as (v & Hv & Hvd). exists v. split; [exact Hv|congruence].
-    + rewrite Hcj. eapply (jwf_le h h2); eauto. eapply jwf_prof; [|apply (w_jwf _ _ W)].
-      unfold tj, prof. cbn [h2 vjournal w_vjournal]. rewrite Hlen, <- !skipn_map'. unfold prof in Hp. now rewrite Hp.
-    + apply (w_dirty _ _ W).
-    + apply (w_nodup _ _ W).
-    + apply (w_dsorted _ _ W).
-    + apply (w_tnodup _ _ W).
-  - apply (wfa_frame h); auto.
-  - constructor.
-    + intros a. rewrite (r_xs _ _ _ Rx). symmetry. now apply xpeek_frame.
-    + apply Rx.
-    + apply Rx.
-    + apply Rx.
-    + apply Rx.
-    + apply Rx.
-    + apply Rx.
-    + apply Rx.
-    + cbn [h2 vjournal w_vjournal]. rewrite Hlen. apply Rx.
-    + cbn [h2 vjournal w_vjournal]. rewrite Haddr. apply Rx.
-    + rewrite Hcj. cbn [h2 vjournal w_vjournal]. rewrite Hlen. rewrite (r_vj _ _ _ Rx). symmetry. now apply map_abs_entry_eq.
-Qed.
-
-Lemma retarget_prof a v nw j : prof (map (retarget a v nw) j) = prof j.
-Proof.
-  unfold prof. rewrite map_map. apply map_ext. intros e. destruct e as [| a' n old|]; try reflexivity.
-  cbn [retarget]. destruct (aliased a v (VUpdate a' n old)); reflexivity.
-Qed.
-
-Lemma alias_depth_le a v j : (alias_depth a v j <= length j)%nat.
-Proof. induction j as [|e r IH]; cbn [alias_depth length]; [lia|]. destruct (aliased a v e); lia. Qed.
-
-Lemma retarget_noalias a v nw e : aliased a v e = false -> retarget a v nw e = e.
-Proof. destruct e; try reflexivity. cbn [retarget]. now intros ->. Qed.
-
-Lemma retarget_firstn a v nw j : forall n, (alias_depth a v j <= n)%nat ->
-  firstn (length j - n) (map (retarget a v nw) j) = firstn (length j - n) j.
-Proof.
-  induction j as [|e r IH]; intros n Hn; [now rewrite !firstn_nil|].
-  cbn [alias_depth length] in Hn. destruct (aliased a v e) eqn:Ea.
-  - cbn [length]. replace (S (length r) - n)%nat with 0%nat by lia. reflexivity.
-  - cbn [length map]. pose proof (alias_depth_le a v r).
-    destruct (Nat.le_gt_cases n (length r)).
-    + replace (S (length r) - n)%nat with (S (length r - n)) by lia. rewrite !firstn_S_cons.
-      rewrite (retarget_noalias _ _ _ _ Ea). f_equal. apply IH, Hn.
-    + replace (S (length r) - n)%nat with 0%nat by lia. reflexivity.
-Qed.
-
-Lemma retarget_absent a v nw j : ~ In a (map ventry_addr j) -> map (retarget a v nw) j = j.
-Proof.
-  induction j as [|e r IH]; cbn [map]; [reflexivity|]. intros N. rewrite IH by (intros H; apply N; right; exact H).
-  f_equal. apply retarget_noalias. destruct e as [|a' n old|]; try reflexivity. cbn [aliased].
-  destruct (Z.eqb_spec a' a) as [->|]; [|reflexivity]. exfalso. apply N. left. reflexivity.
-Qed.
-
-Lemma sim_update_in h t x a u h' :
-  wf h t -> R h t x -> J x -> step h (OUpdateIn a u) = Some h' ->
-  wf h' (taint_next h t (OUpdateIn a u) h') /\ R h' (taint_next h t (OUpdateIn a u) h') (a_step x (OUpdateIn a u)).
-Proof.
-  intros W Rx HJ. cbn [step a_step taint_next]. unfold c_update. rewrite (r_xs _ _ _ Rx).
-  destruct (aget (vmap h) a) as [v|] eqn:Ev.
-  - (* cached *)
-    set (t2 := Nat.max t (alias_depth a v (vjournal h))).
-    pose proof (alias_depth_le a v (vjournal h)) as Hdl.
-    assert (Ht2 : (t2 <= length (vjournal h))%nat) by (pose proof (w_t _ _ (proj1 W)); unfold t2; lia).
-    assert (W2 : wf h t2) by (apply (wf_taint_up h t); [exact W|unfold t2; lia|exact Ht2]).
-    assert (R2 : R h t2 x) by (apply (R_taint_up h t); [exact Rx|unfold t2; lia]).
-    unfold get_validator. rewrite Ev. unfold xpeek. rewrite Ev.
-    destruct (v_deleted v) eqn:Ed.
-    + intros H; inversion H; subst h'. rewrite a_push_nil. auto.
-    + set (nw := set_oid (apply_upd v u) (fresh_oid h)). intros Hu.
-      destruct (journal_swap h t2 x (map (retarget a v nw) (vjournal h)) W2 R2) as [W3 R3].
-      * apply map_length.
-      * apply retarget_prof.
-      * unfold cj. apply retarget_firstn. unfold t2. lia.
-      * exact (update_tail _ _ _ _ _ _ _ _ W3 R3 HJ Ev Ed Hu).
-  - (* loaded from the trie (or absent): the journal has no entry for a *)
-    destruct (get_validator h a) as [h1 r] eqn:Eg.
-    destruct (get_validator_spec _ _ _ _ _ _ W Rx HJ Eg) as (W1 & R1 & Hle & Hrest & Hr).
-    assert (Hj : vjournal h1 = vjournal h) by apply Hrest.
-    assert (Hno : ~ In a (map ventry_addr (vjournal h))).
-    { intros Hin. apply in_map_iff in Hin. destruct Hin as (e & Hea & He).
-      apply (jlive_present _ _ _ (proj1 W) He). now rewrite Hea. }
-    destruct r as [old|].
-    + destruct Hr as (Hv & Hd & Hx). rewrite Hx. rewrite Hj, retarget_absent by exact Hno.
-      rewrite <- Hj. replace (w_vjournal h1 (vjournal h1)) with h1 by (destruct h1; reflexivity).
-      intros Hu. exact (update_tail _ _ _ _ _ _ _ _ W1 R1 HJ Hv Hd Hu).
-    + destruct Hr as [Hx ->]. rewrite Hx. intros H; inversion H; subst. rewrite a_push_nil. auto.
 Qed.
 
 (* ---- the delegator side of UpdateDelegation ------------------------------------------------ *)
